@@ -471,6 +471,12 @@ func (conn *Conn) postConnect(ctx context.Context, start bool) {
 			conn.wg.Add(1)
 			go conn.ping(ctx)
 		}
+		// Make sure cancellation disconnects us even when the other
+		// goroutines are too busy (or too blocked) to notice it.
+		go func(rw *bufio.ReadWriter) {
+			<-ctx.Done()
+			conn.closeIf(rw)
+		}(conn.io)
 	}
 }
 
